@@ -64,7 +64,7 @@ CHECKS["C16"] = dict(
     design="6/C16", technique="Coq proof (log-shape theorem over all input sequences) + callback-log correspondence in virtual time")
 
 CHECKS["C06"] = dict(
-    text="filterSubscription.run as a step function (FilterSub.v) over the cache model. Proved: its state invariant under every input sequence (cache actor's filter = most recently set filter, cache empty until readiness); filter_update_commutes (a child in step with its parent stays in step under every well-formed parent event); sync_establishes_in_step (every sync from the parent's current content re-establishes it, from any cache not newer than the parent); nested_conjunction; its own events are a well-formed delta (C02); and the RACING CASE fsub_converges: for every interleaving of consuming parent events with listings of the parent that are any number of events ahead, under any new filter, once the stale events have drained the cache is the most recently set filter applied to the parent's cache (to the parent's final cache when everything is consumed) - fsub_converges_general proves it for EVERY well-formed parent history (each event a well-formed delta of the parent's cache, C02; objects may be deleted and re-created at lower versions); emitted_history_wf shows that the events a node emits are again such a history, and chain_converges / chain_is_conjunction lift the result to chains of filtered nodes of ANY depth, each with its own interleaving: at the bottom, the conjunction of the filters most recently set applied to the root's entry. Correspondence: random trees of all six subscribe/clone forms to depth 3 with Refilter racing with readiness and in-flight events under perturbed schedules; at barriers every ready node's cache vs its filter chain applied to the server content and vs the extracted nested_view, event mirrors between barriers.",
+    text="filterSubscription.run as a step function (FilterSub.v) over the cache model. Proved: its state invariant under every input sequence (cache actor's filter = most recently set filter, cache empty until readiness); filter_update_commutes (a child in step with its parent stays in step under every well-formed parent event); sync_establishes_in_step (every sync from the parent's current content re-establishes it, from any cache not newer than the parent); nested_conjunction; its own events are a well-formed delta (C02); and the RACING CASE fsub_converges: for every interleaving of consuming parent events with listings of the parent that are any number of events ahead, under any new filter, once the stale events have drained the cache is the most recently set filter applied to the parent's cache (to the parent's final cache when everything is consumed) - fsub_converges_general proves it for EVERY well-formed parent history (each event a well-formed delta of the parent's cache, C02; objects may be deleted and re-created at lower versions); emitted_history_wf shows that the events a node emits are again such a history, and chain_converges / chain_is_conjunction lift the result to chains of filtered nodes of ANY depth, each with its own interleaving: at the bottom, the conjunction of the filters most recently set applied to the root's entry; tree_converges_to_root_cache composes this with cache_emits_wf_history (the cache model emits a well-formed history on every key under every operation sequence). Correspondence: random trees of all six subscribe/clone forms to depth 3 with Refilter racing with readiness and in-flight events under perturbed schedules; at barriers every ready node's cache vs its filter chain applied to the server content and vs the extracted nested_view, event mirrors between barriers.",
     note="The racing case is proved per key (FilterRaceGen.fsub_converges_general), which is how the cache operations act (child_sync_per_key, child_update_per_key, parent_apply_per_key).",
     design="6/C06", technique="Coq proof (step-function invariant, commutation and nesting theorems) + barrier correspondence under racing Refilter in virtual time")
 CHECKS["C07"] = dict(
